@@ -3,6 +3,8 @@
 // /verif/selftest/expected.txt. "must fail" entries guard the soundness of the frame heuristics.
 package st
 
+import "sort"
+
 type T struct {
 	x int
 	y int
@@ -189,4 +191,60 @@ func MissingKeyIsZero(m map[string]int) int {
 // ExistsButAbsent: claims an element equal to v exists; none need exist.
 func ExistsButAbsent(a []int, v int) bool {
 	return len(a) > 0
+}
+
+// --- element heaps of struct slices across calls (type-based frame) ---
+
+type Item struct{ D int }
+
+var itemSink []Item
+
+func bumpSink() {
+	if len(itemSink) > 0 {
+		itemSink[0].D = 7
+	}
+}
+func sortSink()        { sort.Slice(itemSink, func(i, j int) bool { return itemSink[i].D < itemSink[j].D }) }
+func pointIntoSink() *Item { return &itemSink[0] }
+func viaPointer()      { p := pointIntoSink(); p.D = 9 }
+func countOnly(n int) int { return n + 1 }
+
+// ItemsKeptAcrossCounting: the callee contains nothing that writes an Item: xs[0].D is unchanged.
+func ItemsKeptAcrossCounting(xs []Item) int {
+	if len(xs) == 0 {
+		return 0
+	}
+	a := xs[0].D
+	_ = countOnly(a)
+	return xs[0].D - a
+}
+
+// ItemsAcrossIndexWriter: the callee writes an element of some []Item (it may be ours).
+func ItemsAcrossIndexWriter(xs []Item) int {
+	if len(xs) == 0 {
+		return 0
+	}
+	a := xs[0].D
+	bumpSink()
+	return xs[0].D - a
+}
+
+// ItemsAcrossReflectiveWriter: the callee hands a []Item to sort.Slice.
+func ItemsAcrossReflectiveWriter(xs []Item) int {
+	if len(xs) == 0 {
+		return 0
+	}
+	a := xs[0].D
+	sortSink()
+	return xs[0].D - a
+}
+
+// ItemsAcrossPointerWriter: the callee writes a field through a *Item that may point into a slice.
+func ItemsAcrossPointerWriter(xs []Item) int {
+	if len(xs) == 0 {
+		return 0
+	}
+	a := xs[0].D
+	viaPointer()
+	return xs[0].D - a
 }
